@@ -68,7 +68,8 @@ impl RegistryPackageResolver {
         &self,
         keys: &IndexMap<BorrowedPackageKey<'a>, SourceSpan>,
     ) -> Result<IndexMap<BorrowedPackageKey<'a>, Vec<u8>>, Error> {
-        // parses into `PackageName` and maps back to `SourceSpan`
+        // parses into `PackageName` and maps back to `SourceSpan`; one entry per key, in key
+        // order: several keys may name the same package at different versions
         let package_names_with_source_span = keys
             .iter()
             .map(|(key, span)| {
@@ -82,7 +83,13 @@ impl RegistryPackageResolver {
                     (key.version.cloned(), *span),
                 ))
             })
-            .collect::<Result<IndexMap<PackageName, (Option<Version>, SourceSpan)>, Error>>()?;
+            .collect::<Result<Vec<(PackageName, (Option<Version>, SourceSpan))>, Error>>()?;
+
+        // the distinct package names, each with the span of the first key referencing it
+        let mut package_names: IndexMap<&PackageName, SourceSpan> = IndexMap::new();
+        for (name, (_, span)) in &package_names_with_source_span {
+            package_names.entry(name).or_insert(*span);
+        }
 
         // fetch required package logs and return error if any not found
         if let Some(bar) = self.bar.as_ref() {
@@ -91,14 +98,14 @@ impl RegistryPackageResolver {
 
         match self
             .client
-            .fetch_packages(package_names_with_source_span.keys())
+            .fetch_packages(package_names.keys().copied())
             .await
         {
             Ok(_) => {}
             Err(ClientError::PackageDoesNotExist { name, .. }) => {
                 return Err(Error::PackageDoesNotExist {
                     name: name.to_string(),
-                    span: package_names_with_source_span.get(&name).unwrap().1,
+                    span: *package_names.get(&name).unwrap(),
                 });
             }
             Err(err) => {
